@@ -16,6 +16,9 @@ type RunOp struct {
 	Sched  simrt.Schedule    `json:"sched"`
 	Faults []proto.Fault     `json:"faults,omitempty"`
 	Fresh  bool              `json:"fresh,omitempty"` // start a fresh worker process for this run
+	// GoMaxProcs of the (fresh) worker process: go/packages parses and type-checks in parallel, and
+	// the order in which its goroutines register files decides every token.Pos value.
+	GoMaxProcs int `json:"gomaxprocs,omitempty"`
 }
 
 // Op is one step of a history.
